@@ -28,7 +28,7 @@ theorem C19_writes_agree (sepC : Char) (sepP : Str) (ls out : List Str) :
 exactly the stripped header line — never a part of the body -/
 theorem C19_writes_on_error (sepC : Char) (sepP : Str) (ls : List Str) (e : PinErr)
     (h : pinToTsvLines sepC sepP ls = .error e) :
-    pinToTsvWrites sepC sepP ls = ((ls.head?.map (fun l => strip l ++ ['\n'])).toList, some e) :=
+    pinToTsvWrites sepC sepP ls = ((ls.head?.map (fun l => chomp l ++ ['\n'])).toList, some e) :=
   pinToTsvWrites_error sepC sepP ls e h
 
 /-- a well-formed document is written line by line: one `write` for the header, then one per
@@ -60,7 +60,7 @@ or holds just the header line — old content is gone, no PSM line has been writ
 theorem C19_tool_fs_error (sepC : Option Char) (sepP : Option Str) (raw : Str) (old : Option Str) (e : PinErr)
     (h : toolMain sepC sepP raw (old.getD []) = .error e) :
     toolMainFs sepC sepP raw old
-      = (((pyLines (univNl raw)).head?.map (fun l => strip l ++ ['\n'])).getD [], some e) := by
+      = (((pyLines (univNl raw)).head?.map (fun l => chomp l ++ ['\n'])).getD [], some e) := by
   rw [toolMain_eq] at h
   unfold toolMainFs
   cases hl : pinToTsvLines (sepC.getD '\t') (sepP.getD [':']) (pyLines (univNl raw)) with
@@ -121,7 +121,7 @@ theorem C19_verify_fs_error_keeps_input (raw : Str) (old : Option Str) (e : PinE
     (h : (verifyStepFs raw old).2 = some e) :
     (verifyStepFs raw old).1.pin = raw ∧
     ((verifyStepFs raw old).1.tsv = old ∨
-     (verifyStepFs raw old).1.tsv = some (((pyLines (univNl raw)).head?.map (fun l => strip l ++ ['\n'])).getD [])) := by
+     (verifyStepFs raw old).1.tsv = some (((pyLines (univNl raw)).head?.map (fun l => chomp l ++ ['\n'])).getD [])) := by
   cases hv : isValid '\t' (univNl raw) with
   | error e' => rw [(verifyStepFs_invalid_error raw old e' hv).1]; simp
   | ok b =>
@@ -286,15 +286,13 @@ theorem C19_lossless (sepC p : Char) (d : PinDoc) (h : d.wf sepC = true) (hps : 
 
 /-! ## Non-vacuity and evaluation tests -/
 
-/-- padded DefaultDirection line with as many fields as the header, one protein per row:
-well-formed, but `is_valid_tsv` does not see the line (the converter would drop it) -/
-def exDocPaddedDD : PinDoc :=
-  { hpadL := [], cols := ["Id".toList, "Proteins".toList], hpadR := [], dd := some " DefaultDirection\t-".toList,
-    rows := [{ padL := [], pre := ["a".toList], prots := ["P".toList], post := [], padR := [] }], trailingNl := true }
+/-- a line after the header that reads `DefaultDirection` only after a blank: since the converter no longer
+strips blanks (`rstrip("\r\n")`), it is an ordinary row for the converter *and* for `is_valid_tsv` — the
+two functions agree (before commit 750c44b the converter dropped it while the validity test kept it) -/
+def exTextBlankDD : Str := "Id\tProteins\n DefaultDirection\t-\na\tP\n".toList
 
-#guard exDocPaddedDD.wf '\t' && exDocPaddedDD.padsFree '\t' && !exDocPaddedDD.ddPlain
-#guard (isValid '\t' (renderPin '\t' exDocPaddedDD)).toOption = some true
-#guard docValidSpec exDocPaddedDD == false
+#guard (isValid '\t' exTextBlankDD).toOption = some true
+#guard (pinToTsv '\t' [':'] exTextBlankDD).toOption = some exTextBlankDD
 #guard exDoc.wf '\t' && exDoc.padsFree '\t' && exDoc.ddPlain && !docValidSpec exDoc
 #guard exDocValid.wf '\t' && exDocValid.padsFree '\t' && exDocValid.ddPlain && docValidSpec exDocValid
 #guard exDocCrlf.protsFree ':' && exDoc.protsFree ':'
@@ -302,9 +300,9 @@ def exDocPaddedDD : PinDoc :=
 #guard (isValid '\t' "Id\tProteins\na\tP\t\n".toList).toOption = some false
 -- the writes
 #guard (pinToTsvWrites '\t' [':'] (pyLines (renderPin '\t' exDoc))).1.map String.ofList
-  = ["SpecId\tLabel\tProteins\tPeptide\n", "t_1\t1\tsp|A:sp|B:sp|C\tK.SEFLVR.E\n", "t_2\t-1\tsp|D\tR.HTALGPR.S\n"]
+  = ["SpecId\tLabel\tProteins\tPeptide\n", "\t1\tsp|A:sp|B:sp|C\tK.SEFLVR.E\n", " t_2\t-1\tsp|D:\t\n"]
 #guard pinToTsvWrites '\t' [':'] [] = ([], some .stopIteration)
-#guard pinToTsvWrites '\t' [':'] [" a\tb \n".toList, "x\n".toList] = (["a\tb\n".toList], some .assertion)
+#guard pinToTsvWrites '\t' [':'] [" a\tb \r\n".toList, "x\n".toList] = ([" a\tb \n".toList], some .assertion)
 #guard pinToTsvWrites '\t' [':'] ["a\tProteins\n".toList] = (["a\tProteins\n".toList], some .stopIteration)
 -- files on disk
 #guard toolMainFs none none "a\tb\r\nc\r\n".toList (some "old".toList) = ("a\tb\n".toList, some .assertion)
@@ -322,12 +320,6 @@ def exDocPaddedDD : PinDoc :=
 example : exDoc.wf '\t' = true ∧ exDoc.padsFree '\t' = true ∧ exDoc.ddPlain = true ∧ docValidSpec exDoc = false ∧
     exDocValid.wf '\t' = true ∧ exDocValid.padsFree '\t' = true ∧ exDocValid.ddPlain = true ∧
     docValidSpec exDocValid = true := by decide
-
-/-- `ddPlain` cannot be dropped from `C19_valid_doc_iff`: a well-formed document with a
-(whitespace-preceded) DefaultDirection line that `is_valid_tsv` reports valid -/
-example : exDocPaddedDD.wf '\t' = true ∧ exDocPaddedDD.padsFree '\t' = true ∧ exDocPaddedDD.dd.isSome = true ∧
-    isValid '\t' (renderPin '\t' exDocPaddedDD) = .ok true :=
-  ⟨by decide, by decide, by decide, by rfl⟩
 
 /-- `C19_lossless`: hypotheses satisfiable with several proteins in a row -/
 example : exDoc.wf '\t' = true ∧ exDoc.protsFree ':' = true ∧ (∃ r ∈ exDoc.rows, 3 ≤ r.prots.length) := by decide
